@@ -44,9 +44,16 @@ def q(f):
         return ('exc', type(e).__name__)
 
 
-def snapshot(p):
+def snapshot(p, order=0):
+    """order: which query comes first (a query may refresh what a later one reads): 0 length, 1 point, 2 T2t, 3 t2T"""
     out = {}
     out['len'] = q(lambda: len(p))
+    if order == 1:
+        out['point(0.3)'] = q(lambda: p.point(0.3))
+    elif order == 2:
+        out['T2t(0.3)'] = q(lambda: p.T2t(0.3))
+    elif order == 3:
+        out['t2T(last,.5)'] = q(lambda: p.t2T(len(p) - 1, 0.5))
     out['length'] = q(p.length)
     out['start'] = q(lambda: p.start)
     out['end'] = q(lambda: p.end)
@@ -92,7 +99,9 @@ def compare_fresh(ck, p, hist_prefix, mode, cubic, extra_key=''):
             loose.length(error=1e-2, min_depth=1)
         eq = eq and (loose == fresh) and (fresh == loose) and (p == loose) and not (loose != fresh) and hash(loose) == hash(fresh)
         if cubic and not bad:
-            c = snapshot(loose)
+            order = 1 + len(hist_prefix) % 3
+            c = snapshot(loose, order)
+            b = snapshot(sp.Path(*[type(s)(*s.bpoints()) for s in p]), order)
             stale = [k for k in c if not close(c[k], b[k])]
             if stale:
                 ck.disagree(key='Path.length/first-request-tolerance-sticks' + extra_key, site='svgpathtools/path.py:Path._calc_lengths',
@@ -235,7 +244,7 @@ def segment_level(ck, rnd, n):
     the answer must be at least as accurate as a fresh segment's answer to the same request.
     Histories come from SegCache.tla."""
     r = ck.tlc('SegCache', 'SegCache_MC.cfg', need_actions=['SetCtrl', 'QLen', 'Rev'])
-    dump = 'SPECIFICATION Spec\nCONSTANTS MaxOps = %d\n Variant = "correct"\nINVARIANT Dump\n' % (3 if ck.tier == 'quick' else 4)
+    dump = 'SPECIFICATION Spec\nCONSTANTS MaxOps = %d\n Variant = "correct"\nINVARIANT Dump\n' % (4 if ck.tier == 'quick' else 5)
     cases = ck.tlc('SegCache', dump, workers=1, coverage=False).cases
     rnd.shuffle(cases)
     # requested error / depth classes (1 = loose / shallow, 2 = tight / deep), chosen so that in the recursive
@@ -316,6 +325,13 @@ def hash_eq(ck):
                                                  else ('start', 'radius', 'rotation', 'large_arc', 'sweep', 'end'))])
         pairs.append((repr(s), s, cp))
         pairs.append(('Path(%r)' % s, sp.Path(s), sp.Path(cp)))
+    # arcs whose defining fields are spelled differently (rotation a full turn apart, int / float): whatever == says, equal objects hash equally
+    for r1, r2 in ((-30, 330), (0, 360.0), (45, 45.0), (720, 0)):
+        a1, a2 = sp.Arc(0j, 2 + 1j, r1, False, True, 2 + 1j), sp.Arc(0j, 2 + 1j, r2, False, True, 2 + 1j)
+        pairs.append(('Arc rotation %r / %r' % (r1, r2), a1, a2))
+        pairs.append(('Path(Arc) rotation %r / %r' % (r1, r2), sp.Path(sp.Line(-1, 0j), a1), sp.Path(sp.Line(-1, 0j), a2)))
+    for z1, z2 in ((1, 1.0), (1 + 0j, 1), (0j, -0.0)):
+        pairs.append(('Line end %r / %r' % (z1, z2), sp.Line(3j, z1), sp.Line(3j, z2)))
     for name, a, b in pairs:
         ck.case(fp=('hash', name), nontrivial=True)
         if a == b and hash(a) != hash(b):
